@@ -392,7 +392,8 @@ def _maybe_attach_shm(
     against future refactors that might wire it differently.
 
     Returns ``None`` if the transport is HTTP, the metadata doesn't
-    contain SHM segment keys, or the values are malformed.  The caller
+    contain SHM segment keys, the values are malformed, or the named
+    segment cannot be attached.  The caller
     owns unlinking; the returned segment uses ``track=False`` so the
     resource tracker won't interfere.
     """
@@ -417,7 +418,19 @@ def _maybe_attach_shm(
     except (ValueError, UnicodeDecodeError):
         _logger.warning("Ignoring malformed SHM metadata: name=%r, size=%r", shm_name_bytes, shm_size_bytes)
         return None
-    return ShmSegment.attach(shm_name, shm_size, track=False)
+    try:
+        return ShmSegment.attach(shm_name, shm_size, track=False)
+    except Exception as exc:
+        # The name and size are client-supplied.  A segment that does not
+        # exist, is not accessible, is too small or does not carry a valid
+        # header (FileNotFoundError, PermissionError, OSError, ValueError,
+        # struct.error) is a malformed request, not a server fault: both call
+        # sites in ``serve_one`` run outside its error handling, so letting it
+        # propagate would end the serve loop without a reply.  Degrade to "no
+        # segment" — a pointer request then gets the usual typed row-count
+        # error, an inline request is served inline.
+        _logger.warning("Ignoring unattachable SHM segment %r (size %d): %s", shm_name, shm_size, exc)
+        return None
 
 
 class _ConnectionShm:
